@@ -666,31 +666,31 @@ func mapPlaceProperties(mm map[string][]byte, p Place) (hasData bool, err error)
 		hasData, err = mapObjectProperties(mm, o)
 		return err
 	})
-	if p.Accuracy > 0 {
+	if p.Accuracy != 0 {
 		if mm["accuracy"], err = gobEncodeFloat64(p.Accuracy); err != nil {
 			return
 		}
 		hasData = true
 	}
-	if p.Altitude > 0 {
+	if p.Altitude != 0 {
 		if mm["altitude"], err = gobEncodeFloat64(p.Altitude); err != nil {
 			return
 		}
 		hasData = true
 	}
-	if p.Latitude > 0 {
+	if p.Latitude != 0 {
 		if mm["latitude"], err = gobEncodeFloat64(p.Latitude); err != nil {
 			return
 		}
 		hasData = true
 	}
-	if p.Longitude > 0 {
+	if p.Longitude != 0 {
 		if mm["longitude"], err = gobEncodeFloat64(p.Longitude); err != nil {
 			return
 		}
 		hasData = true
 	}
-	if p.Radius > 0 {
+	if p.Radius != 0 {
 		if mm["radius"], err = gobEncodeInt64(p.Radius); err != nil {
 			return
 		}
